@@ -12,7 +12,7 @@ SECS = ["mtu", "tcp_req", "tcp_resp", "http_req", "http_resp"]
 
 
 def generate(R, tier):
-    n = 1500 if tier == "quick" else 30000
+    n = 1500 if tier == "quick" else 150000
     for _ in range(n):
         labels = [D.rand_label(R, "tcp") for _ in range(R.randint(1, 3))]
         mlabels = [D.rand_label(R, "mtu") for _ in range(2)] + [R.choice(labels)]
